@@ -125,13 +125,13 @@ inst!(neon_two_find, [props=C01+C09 xprops=C05+C14 tier=thorough cfg=neon t=1800
 inst!(neon_two_rfind, [props=C02+C09 xprops=C05+C14 tier=thorough cfg=neon t=1800 role=neon-rfind uw=verif_emul:17;rfind_raw.0:2;rfind_raw.1:4;byte_by_byte:17], 3,
     neon::find::<35>(2, true, 0, 20));
 #[cfg(vcfg_neon)]
-inst!(neon_three_find, [props=C01+C09 xprops=C05+C14 tier=quick cfg=neon t=1800 role=neon-find uw=verif_emul:17;find_raw.0:2;find_raw.1:4;byte_by_byte:17], 3,
+inst!(neon_three_find, [props=C01+C09 xprops=C05+C14 tier=thorough cfg=neon t=1800 role=neon-find uw=verif_emul:17;find_raw.0:2;find_raw.1:4;byte_by_byte:17], 3,
     neon::find::<35>(3, false, 0, 20));
 #[cfg(vcfg_neon)]
 inst!(neon_three_find_40, [props=C01+C09 xprops=C05+C14 tier=thorough cfg=neon t=5400 role=neon-find uw=verif_emul:17;find_raw.0:2;find_raw.1:4;byte_by_byte:17], 3,
     neon::find::<55>(3, false, 0, 40));
 #[cfg(vcfg_neon)]
-inst!(neon_three_rfind, [props=C02+C09 xprops=C05+C14 tier=quick cfg=neon t=1800 role=neon-rfind uw=verif_emul:17;rfind_raw.0:2;rfind_raw.1:4;byte_by_byte:17], 3,
+inst!(neon_three_rfind, [props=C02+C09 xprops=C05+C14 tier=thorough cfg=neon t=1800 role=neon-rfind uw=verif_emul:17;rfind_raw.0:2;rfind_raw.1:4;byte_by_byte:17], 3,
     neon::find::<35>(3, true, 0, 20));
 #[cfg(vcfg_neon)]
 inst!(neon_three_rfind_40, [props=C02+C09 xprops=C05+C14 tier=thorough cfg=neon t=5400 role=neon-rfind uw=verif_emul:17;rfind_raw.0:2;rfind_raw.1:4;byte_by_byte:17], 3,
@@ -167,13 +167,13 @@ inst!(simd128_two_find, [props=C01+C09 xprops=C05+C14 tier=thorough cfg=simd128 
 inst!(simd128_two_rfind, [props=C02+C09 xprops=C05+C14 tier=thorough cfg=simd128 t=1800 role=simd128-rfind uw=verif_emul:17;rfind_raw.0:2;rfind_raw.1:4;byte_by_byte:17], 3,
     simd128::find::<35>(2, true, 0, 20));
 #[cfg(vcfg_simd128)]
-inst!(simd128_three_find, [props=C01+C09 xprops=C05+C14 tier=quick cfg=simd128 t=1800 role=simd128-find uw=verif_emul:17;find_raw.0:2;find_raw.1:4;byte_by_byte:17], 3,
+inst!(simd128_three_find, [props=C01+C09 xprops=C05+C14 tier=thorough cfg=simd128 t=1800 role=simd128-find uw=verif_emul:17;find_raw.0:2;find_raw.1:4;byte_by_byte:17], 3,
     simd128::find::<35>(3, false, 0, 20));
 #[cfg(vcfg_simd128)]
 inst!(simd128_three_find_40, [props=C01+C09 xprops=C05+C14 tier=thorough cfg=simd128 t=5400 role=simd128-find uw=verif_emul:17;find_raw.0:2;find_raw.1:4;byte_by_byte:17], 3,
     simd128::find::<55>(3, false, 0, 40));
 #[cfg(vcfg_simd128)]
-inst!(simd128_three_rfind, [props=C02+C09 xprops=C05+C14 tier=quick cfg=simd128 t=1800 role=simd128-rfind uw=verif_emul:17;rfind_raw.0:2;rfind_raw.1:4;byte_by_byte:17], 3,
+inst!(simd128_three_rfind, [props=C02+C09 xprops=C05+C14 tier=thorough cfg=simd128 t=1800 role=simd128-rfind uw=verif_emul:17;rfind_raw.0:2;rfind_raw.1:4;byte_by_byte:17], 3,
     simd128::find::<35>(3, true, 0, 20));
 #[cfg(vcfg_simd128)]
 inst!(simd128_three_rfind_40, [props=C02+C09 xprops=C05+C14 tier=thorough cfg=simd128 t=5400 role=simd128-rfind uw=verif_emul:17;rfind_raw.0:2;rfind_raw.1:4;byte_by_byte:17], 3,
